@@ -37,9 +37,11 @@ and for the discrete methods (`inside_outside`, `maximization`):
                  priors given: Ne given → ValueError
     run:         inside_outside: mutation_rate None and num_trees > 1 → NotImplementedError
                  maximization:   mutation_rate None → ValueError
-    main_algorithm: probability_space not in {linear, logarithmic} → ValueError
+    main_algorithm: mutation_rate given and not > 0 → ValueError        (since /repo a8b199f)
+                    probability_space not in {linear, logarithmic} → ValueError
     precalculate:   num_threads < 0 → multiprocessing.Pool raises ValueError
-    (no guard on `mutation_rate > 0` and none on `eps >= 0`: the values reach scipy.stats.poisson)
+    (no guard on `eps >= 0`: the value reaches scipy.stats.poisson; before a8b199f the same was
+     true of `mutation_rate` — `checksPreFix` keeps that chain as the regression counter-example)
 
 Core Lean only; executable; run by Driver/Validate.lean against the real functions.
 -/
@@ -184,6 +186,7 @@ def checks (p : Params) (i : Input) : List (Bool × Outcome) :=
       (p.priors && effPop p != .absent, .valueError .popAndPriors),
       (m == .io && p.mutationRate == .absent && i.multiTree, .notImplemented .topologyOnlyClock),
       (m == .mx && p.mutationRate == .absent, .valueError .rateMissing),
+      (p.mutationRate == .bad, .valueError .rateNotPositive),
       (p.probSpace == .bad, .valueError .probabilitySpace),
       (p.numThreads == .bad && p.mutationRate != .absent, .valueError .numThreads) ]
 
@@ -195,7 +198,7 @@ def firstFail : List (Bool × Outcome) → Option Outcome
 /-- Parameters outside their range for which the method has no guard. -/
 def unguarded (p : Params) : Bool :=
   match p.method with
-  | .io | .mx => p.mutationRate == .bad || p.eps == .bad
+  | .io | .mx => p.eps == .bad
   | _ => false
 
 /-- The decision: the exception of the first guard that fires, else the return shape. -/
@@ -203,6 +206,23 @@ def outcome (p : Params) (i : Input) : Outcome :=
   match firstFail (checks p i) with
   | some o => o
   | none => if unguarded p then .unvalidated else .ok (shape p)
+
+/-! ### The chain before /repo commit a8b199f (regression counter-example) -/
+
+def isDiscrete : Method → Bool
+  | .io | .mx => true
+  | _ => false
+
+/-- The discrete methods' chain without the `mutation_rate > 0` guard of `main_algorithm`. -/
+def checksPreFix (p : Params) (i : Input) : List (Bool × Outcome) :=
+  (checks p i).filter (fun x => !(isDiscrete p.method && x.2 == .valueError .rateNotPositive))
+
+def outcomePreFix (p : Params) (i : Input) : Outcome :=
+  match firstFail (checksPreFix p i) with
+  | some o => o
+  | none =>
+    if isDiscrete p.method && (p.mutationRate == .bad || p.eps == .bad) then .unvalidated
+    else .ok (shape p)
 
 /-- All parameters at their defaults / inside their ranges for the given method. -/
 def validParams (m : Method) : Params :=
@@ -229,12 +249,12 @@ def vgBad (p : Params) (i : Input) : Bool :=
 
 /-- Invalid for the discrete methods: neither population size nor priors, both, a population size
 that is not positive and finite, `Ne` together with `population_size`, an unknown probability space,
-a negative thread count (when a mutation rate is given). -/
+a negative thread count (when a mutation rate is given), a mutation rate that is not positive. -/
 def discreteBad (p : Params) : Bool :=
   (!p.priors && effPop p == .absent) || (p.priors && effPop p != .absent) ||
   (!p.priors && effPop p == .bad) || effPop p == .dictBad ||
   (p.neDeprecated && p.populationSize != .absent) || p.probSpace == .bad ||
-  (p.numThreads == .bad && p.mutationRate != .absent)
+  (p.numThreads == .bad && p.mutationRate != .absent) || p.mutationRate == .bad
 
 /-- The invalid classes of the statement that the code guards, as a decidable predicate. -/
 def invalidGuarded (p : Params) (i : Input) : Bool :=
